@@ -1,4 +1,6 @@
 import PiqpModel.Csc
+import Mathlib.Data.List.Perm.Subperm
+import Mathlib.Data.List.Nodup
 import PiqpProofs.Basic
 import PiqpModel.LinAlg
 import PiqpModel.Exec
@@ -2046,4 +2048,287 @@ theorem get_ofOpt [AddZeroClass K] (r c : Nat) (ent : Array (Option K)) (i j : N
 theorem get_preMultDiag_ofOpt [CommSemiring K] (r c : Nat) (ent : Array (Option K)) (d : Array K) (i j : Nat) (hi : i < r) (hj : j < c) :
     ((ofOpt r c ent).preMultDiag d).get i j = (ent.getD (i * c + j) none).getD 0 * d.getD i 0 := by
   rw [(get_preMultDiag (ofOpt r c ent) (ofOpt_mono r c ent) d i j hj).1, get_ofOpt r c ent i j hj, if_pos hi]
+end Piqp.Csc
+
+/-! ## Storage level: the guard of sparse `update()` (`is_transpose_pattern`, binary search included) implies the precondition of the in-place transpose -/
+
+namespace Piqp.Csc
+variable {K : Type}
+
+theorem sum_le (a b : Nat → Nat) : ∀ n : Nat, (∀ i, i < n → a i ≤ b i) → ((List.range n).map a).sum ≤ ((List.range n).map b).sum
+  | 0, _ => by simp
+  | n+1, hle => by
+    rw [List.range_succ, List.map_append, List.map_append, List.sum_append, List.sum_append]
+    simp only [List.map_cons, List.map_nil, List.sum_cons, List.sum_nil, Nat.add_zero]
+    have := sum_le a b n (fun i hi => hle i (by omega))
+    have := hle n (by omega)
+    omega
+
+/-- termwise `≤` and equal sums force termwise equality -/
+theorem sum_le_eq (a b : Nat → Nat) : ∀ n : Nat, (∀ i, i < n → a i ≤ b i) →
+    ((List.range n).map a).sum = ((List.range n).map b).sum → ∀ i, i < n → a i = b i
+  | 0, _, _, i, hi => by omega
+  | n+1, hle, hs, i, hi => by
+    rw [List.range_succ, List.map_append, List.map_append, List.sum_append, List.sum_append] at hs
+    simp only [List.map_cons, List.map_nil, List.sum_cons, List.sum_nil, Nat.add_zero] at hs
+    have hle' : ((List.range n).map a).sum ≤ ((List.range n).map b).sum := sum_le a b n (fun i hi => hle i (by omega))
+    have hn := hle n (by omega)
+    by_cases hin : i = n
+    · subst hin; omega
+    · exact sum_le_eq a b n (fun i hi => hle i (by omega)) (by omega) i (by omega)
+
+/-- a list whose rows are all below `m` splits into its rows -/
+theorem length_eq_sum_rows : ∀ (L : List (Ent K)) (m : Nat), (∀ e ∈ L, e.1 < m) →
+    L.length = ((List.range m).map fun i => (rowOf L i).length).sum
+  | [], m, _ => by simp [rowOf]
+  | e :: L, m, h => by
+    have ih := length_eq_sum_rows L m (fun e' he' => h e' (List.mem_cons_of_mem _ he'))
+    have he := h e List.mem_cons_self
+    rw [List.length_cons, ih]
+    -- only row e.1 gains one
+    have key : ∀ (n : Nat), ((List.range n).map fun i => (rowOf (e :: L) i).length).sum =
+        ((List.range n).map fun i => (rowOf L i).length).sum + (if e.1 < n then 1 else 0) := by
+      intro n
+      induction n with
+      | zero => simp
+      | succ k ihk =>
+        rw [List.range_succ, List.map_append, List.map_append, List.sum_append, List.sum_append, ihk]
+        simp only [List.map_cons, List.map_nil, List.sum_cons, List.sum_nil, Nat.add_zero]
+        by_cases hk : e.1 = k
+        · subst hk
+          rw [rowOf_cons_eq]
+          simp
+          omega
+        · rw [rowOf_cons_ne e L k hk]
+          by_cases h1 : e.1 < k
+          · have : e.1 < k + 1 := by omega
+            simp [h1, this]; omega
+          · have : ¬ e.1 < k + 1 := by omega
+            simp [h1, this]
+    rw [key m, if_pos he]
+
+theorem telescope (o : Nat → Nat) : ∀ n : Nat, (∀ j, j < n → o j ≤ o (j + 1)) →
+    ((List.range n).map fun j => o (j + 1) - o j).sum = o n - o 0 ∧ o 0 ≤ o n
+  | 0, _ => by simp
+  | n+1, h => by
+    obtain ⟨ih1, ih2⟩ := telescope o n (fun j hj => h j (by omega))
+    rw [List.range_succ, List.map_append, List.sum_append, ih1]
+    simp only [List.map_cons, List.map_nil, List.sum_cons, List.sum_nil, Nat.add_zero]
+    have := h n (by omega)
+    omega
+
+theorem entries_length [Zero K] (A : Csc K) (hm : Mono A) : (entries A).length = A.outer.getD A.cols 0 - A.outer.getD 0 0 := by
+  unfold entries
+  rw [List.length_flatMap]
+  have : (List.map (fun j => ((A.colRange j).map fun k => (A.inner.getD k 0, j, A.vals.getD k 0)).length) (List.range A.cols)) =
+      (List.range A.cols).map fun j => A.outer.getD (j + 1) 0 - A.outer.getD j 0 := by
+    apply List.map_congr_left
+    intro j _
+    simp [colRange]
+  rw [this]
+  exact (telescope (fun j => A.outer.getD j 0) A.cols hm).1
+
+theorem bsearch_range (inner : Array Nat) (j lo hi : Nat) (h : lo ≤ hi) :
+    lo ≤ bsearch inner j lo hi ∧ bsearch inner j lo hi ≤ hi := by
+  fun_induction bsearch inner j lo hi
+  case case1 lo hi hlt mid hmid ih =>
+    have := ih (by omega)
+    omega
+  case case2 lo hi hlt mid hmid ih =>
+    have := ih (by omega)
+    omega
+  case case3 lo hi hlt => omega
+
+/-- what a successful `is_transpose_pattern(A, C)` has checked -/
+theorem guard_facts (A C : Csc K) (h : isTransposePattern A C = true) :
+    A.cols = C.rows ∧ A.rows = C.cols ∧ A.outer.getD A.cols 0 = C.outer.getD C.cols 0 ∧
+    ∀ j, j < A.cols → ∀ k ∈ A.colRange j,
+      (A.outer.getD j 0 < k → A.inner.getD (k - 1) 0 < A.inner.getD k 0) ∧
+      bsearch C.inner j (C.outer.getD (A.inner.getD k 0) 0) (C.outer.getD (A.inner.getD k 0 + 1) 0) ≠ C.outer.getD (A.inner.getD k 0 + 1) 0 ∧
+      C.inner.getD (bsearch C.inner j (C.outer.getD (A.inner.getD k 0) 0) (C.outer.getD (A.inner.getD k 0 + 1) 0)) 0 = j := by
+  unfold isTransposePattern at h
+  by_cases hd : (A.cols ≠ C.rows || A.rows ≠ C.cols || A.outer.getD A.cols 0 ≠ C.outer.getD C.cols 0) = true
+  · rw [if_pos hd] at h; cases h
+  · rw [if_neg hd] at h
+    simp only [ne_eq, Bool.or_eq_true, decide_eq_true_eq, not_or, not_not] at hd
+    refine ⟨hd.1.1, hd.1.2, hd.2, ?_⟩
+    intro j hj k hk
+    rw [List.all_eq_true] at h
+    have h1 := h j (List.mem_range.mpr hj)
+    rw [List.all_eq_true] at h1
+    have h2 := h1 k hk
+    simp only [Bool.and_eq_true, Bool.not_eq_true', Bool.and_eq_false_iff, decide_eq_false_iff_not, Bool.or_eq_false_iff,
+      beq_eq_false_iff_ne, bne_eq_false_iff_eq, Nat.not_le] at h2
+    refine ⟨fun hlt => ?_, h2.2.1, h2.2.2⟩
+    rcases h2.1 with h3 | h3
+    · exact absurd hlt (by simpa using h3)
+    · simpa using h3
+
+/-- consecutive strict increase on `[s, s+n)` is strict increase -/
+theorem strict_of_steps (f : Nat → Nat) (s n : Nat) (h : ∀ k, s < k → k < s + n → f (k - 1) < f k) :
+    ∀ d k1, s ≤ k1 → k1 + d + 1 < s + n → f k1 < f (k1 + d + 1)
+  | 0, k1, h1, h2 => by have := h (k1 + 1) (by omega) (by omega); simpa using this
+  | d+1, k1, h1, h2 => by
+    have a := strict_of_steps f s n h d k1 h1 (by omega)
+    have b := h (k1 + (d + 1) + 1) (by omega) (by omega)
+    have e : k1 + (d + 1) + 1 - 1 = k1 + d + 1 := by omega
+    rw [e] at b
+    omega
+
+/-- a strictly increasing sequence takes each value at most once -/
+theorem filter_eq_le_one (f : Nat → Nat) (i : Nat) : ∀ (n s : Nat), (∀ k, s < k → k < s + n → f (k - 1) < f k) →
+    ((List.range' s n).filter fun k => f k == i).length ≤ 1
+  | 0, s, _ => by simp
+  | n+1, s, h => by
+    rw [List.range'_succ, List.filter_cons]
+    have ih := filter_eq_le_one f i n (s + 1) (fun k h1 h2 => h k (by omega) (by omega))
+    by_cases hs : f s = i
+    · have hnone : (List.range' (s + 1) n).filter (fun k => f k == i) = [] := by
+        rw [List.filter_eq_nil_iff]
+        intro k hk
+        rw [List.mem_range'_1] at hk
+        have := strict_of_steps f s (n + 1) h (k - s - 1) s (Nat.le_refl _) (by omega)
+        have e : s + (k - s - 1) + 1 = k := by omega
+        rw [e] at this
+        simp; omega
+      simp [hs, hnone]
+    · simp [hs]; exact ih
+
+/-- well-formed compressed storage -/
+structure WF (A : Csc K) : Prop where
+  outer_size : A.outer.size = A.cols + 1
+  first : A.outer.getD 0 0 = 0
+  mono : Mono A
+  fits : A.outer.getD A.cols 0 ≤ A.inner.size ∧ A.outer.getD A.cols 0 ≤ A.vals.size
+  rows_lt : ∀ j, j < A.cols → ∀ k ∈ A.colRange j, A.inner.getD k 0 < A.rows
+
+/-- the columns in which row `i` of `A` has a stored entry, in the order of `entries` -/
+def colsOfRow [Zero K] (A : Csc K) (i : Nat) : List Nat := (rowOf (entries A) i).map (·.2.1)
+
+theorem colsOfRow_eq [Zero K] (A : Csc K) (i : Nat) :
+    colsOfRow A i = (List.range A.cols).flatMap fun j => ((A.colRange j).filter fun k => A.inner.getD k 0 == i).map fun _ => j := by
+  unfold colsOfRow rowOf entries
+  rw [List.filter_flatMap, List.map_flatMap]
+  congr 1
+  funext j
+  rw [List.filter_map, List.map_map]
+  rfl
+
+theorem mem_colsOfRow [Zero K] (A : Csc K) (i j : Nat) (h : j ∈ colsOfRow A i) :
+    j < A.cols ∧ ∃ k ∈ A.colRange j, A.inner.getD k 0 = i := by
+  rw [colsOfRow_eq, List.mem_flatMap] at h
+  obtain ⟨j', hj', hm⟩ := h
+  rw [List.mem_map] at hm
+  obtain ⟨k, hk, rfl⟩ := hm
+  rw [List.mem_filter] at hk
+  exact ⟨List.mem_range.mp hj', k, hk.1, by simpa using hk.2⟩
+
+theorem colsOfRow_nodup [Zero K] (A : Csc K) (i : Nat)
+    (hinc : ∀ j, j < A.cols → ∀ k ∈ A.colRange j, A.outer.getD j 0 < k → A.inner.getD (k - 1) 0 < A.inner.getD k 0) :
+    (colsOfRow A i).Nodup := by
+  rw [colsOfRow_eq, List.nodup_flatMap]
+  constructor
+  · intro j hj
+    have hj' := List.mem_range.mp hj
+    have hle : ((A.colRange j).filter fun k => A.inner.getD k 0 == i).length ≤ 1 := by
+      unfold colRange
+      apply filter_eq_le_one (fun k => A.inner.getD k 0) i
+      intro k h1 h2
+      exact hinc j hj' k (by unfold colRange; rw [List.mem_range'_1]; omega) h1
+    generalize ((A.colRange j).filter fun k => A.inner.getD k 0 == i) = l at hle
+    match l, hle with
+    | [], _ => simp
+    | [x], _ => simp
+    | x :: y :: l', h => simp at h
+  · have := List.nodup_range (n := A.cols)
+    refine List.Pairwise.imp ?_ this
+    intro a b hab x hx hy
+    rw [List.mem_map] at hx hy
+    obtain ⟨_, _, rfl⟩ := hx
+    obtain ⟨_, _, h⟩ := hy
+    exact hab h.symm
+
+/-- **the guard of sparse `update()` implies the precondition of the in-place transpose**: when `is_transpose_pattern(A, C)` answers
+    `true` for well-formed `A` and `C`, `C` is laid out as `Aᵀ` (`TransposeReady`), so `transpose_no_allocation(A, C)` leaves `Aᵀ` in `C`
+    (`transposeInto_get`) and never writes outside a column of `C` -/
+theorem guard_ready [Zero K] (A C : Csc K) (hA : WF A) (hC : WF C) (h : isTransposePattern A C = true) : TransposeReady A C := by
+  obtain ⟨g1, g2, g3, g4⟩ := guard_facts A C h
+  have hrows : ∀ e ∈ entries A, e.1 < A.rows := by
+    intro e he
+    unfold entries at he
+    rw [List.mem_flatMap] at he
+    obtain ⟨j, hj, hm⟩ := he
+    rw [List.mem_map] at hm
+    obtain ⟨k, hk, rfl⟩ := hm
+    exact hA.rows_lt j (List.mem_range.mp hj) k hk
+  -- per row: its entries fit in the column of C
+  have hle : ∀ i, i < A.rows → (rowOf (entries A) i).length ≤ C.outer.getD (i + 1) 0 - C.outer.getD i 0 := by
+    intro i hi
+    have hnd := colsOfRow_nodup A i (fun j hj k hk hlt => (g4 j hj k hk).1 hlt)
+    have hsub : colsOfRow A i ⊆ (List.range' (C.outer.getD i 0) (C.outer.getD (i + 1) 0 - C.outer.getD i 0)).map fun q => C.inner.getD q 0 := by
+      intro j hj
+      obtain ⟨hjc, k, hk, hik⟩ := mem_colsOfRow A i j hj
+      obtain ⟨_, f2, f3⟩ := g4 j hjc k hk
+      rw [hik] at f2 f3
+      have hmono := hC.mono i (by omega)
+      obtain ⟨r1, r2⟩ := bsearch_range C.inner j (C.outer.getD i 0) (C.outer.getD (i + 1) 0) hmono
+      rw [List.mem_map]
+      exact ⟨_, by rw [List.mem_range'_1]; omega, f3⟩
+    have := (hnd.subperm hsub).length_le
+    simpa [colsOfRow] using this
+  -- totals agree
+  have hsumA : ((List.range A.rows).map fun i => (rowOf (entries A) i).length).sum = A.outer.getD A.cols 0 := by
+    rw [← length_eq_sum_rows (entries A) A.rows hrows, entries_length A hA.mono, hA.first, Nat.sub_zero]
+  have hsumC : ((List.range A.rows).map fun i => C.outer.getD (i + 1) 0 - C.outer.getD i 0).sum = C.outer.getD C.cols 0 := by
+    have := (telescope (fun j => C.outer.getD j 0) A.rows (fun j hj => hC.mono j (by omega))).1
+    rw [this, hC.first, Nat.sub_zero, g2]
+  have heq := sum_le_eq (fun i => (rowOf (entries A) i).length) (fun i => C.outer.getD (i + 1) 0 - C.outer.getD i 0) A.rows hle
+    (by rw [hsumA, hsumC, g3])
+  refine ⟨by rw [hC.outer_size, g2], hrows, ?_, hC.first, by rw [g2]; exact hC.fits⟩
+  intro i hi
+  have := heq i hi
+  have := hC.mono i (by omega)
+  omega
+
+/-- the update path in one statement: a sparse `A` accepted by the guard is transposed correctly into the stored `AT` -/
+theorem guarded_transpose [Zero K] [Add K] (A C : Csc K) (hA : WF A) (hC : WF C) (h : isTransposePattern A C = true)
+    (i j : Nat) (hi : i < A.rows) (hj : j < A.cols) :
+    (A.transposeInto C).get j i = A.get i j ∧ (A.transposeInto C).outer = C.outer :=
+  ⟨transposeInto_get A C (guard_ready A C hA hC h) i j hi hj, transposeInto_outer A C (guard_ready A C hA hC h)⟩
+
+theorem mem_colList (r c : Nat) (ent : Array (Option K)) (j : Nat) (e : Nat × K) (he : e ∈ colList r c ent j) : e.1 < r := by
+  unfold colList at he
+  rw [List.mem_filterMap] at he
+  obtain ⟨i, hi, hm⟩ := he
+  cases hg : ent.getD (i * c + j) none with
+  | none => rw [hg] at hm; cases hm
+  | some v => rw [hg] at hm; simp at hm; subst hm; exact List.mem_range.mp hi
+
+/-- the arrays built from a raw matrix are well-formed -/
+theorem ofOpt_wf [Zero K] (r c : Nat) (ent : Array (Option K)) : WF (ofOpt r c ent) where
+  outer_size := by
+    have h : (ofOpt r c ent).outer.toList = (List.range (c + 1)).map (fun t => (preList r c ent t).length) := (ofOpt_state r c ent c).1
+    have : (ofOpt r c ent).outer.size = (ofOpt r c ent).outer.toList.length := by simp
+    rw [this, h]; simp; rfl
+  first := by rw [ofOpt_outer r c ent 0 (by omega)]; simp [preList]
+  mono := ofOpt_mono r c ent
+  fits := by
+    have h2 : (ofOpt r c ent).inner.toList = (preList r c ent c).map (·.1) := (ofOpt_state r c ent c).2.1
+    have h3 : (ofOpt r c ent).vals.toList = (preList r c ent c).map (·.2) := (ofOpt_state r c ent c).2.2
+    have e2 : (ofOpt r c ent).inner.size = (ofOpt r c ent).inner.toList.length := by simp
+    have e3 : (ofOpt r c ent).vals.size = (ofOpt r c ent).vals.toList.length := by simp
+    have hc : (ofOpt r c ent).cols = c := rfl
+    rw [hc, ofOpt_outer r c ent c (Nat.le_refl _), e2, e3, h2, h3]
+    simp
+  rows_lt := by
+    intro j hj k hk
+    have hc : (ofOpt r c ent).cols = c := rfl
+    rw [hc] at hj
+    rw [ofOpt_colRange r c ent j hj, List.mem_range'_1] at hk
+    have := ofOpt_entry r c ent j hj (k - (preList r c ent j).length) (by omega)
+    rw [show (preList r c ent j).length + (k - (preList r c ent j).length) = k by omega] at this
+    have h1 : (ofOpt r c ent).inner.getD k 0 = ((colList r c ent j)[k - (preList r c ent j).length]'(by omega)).1 := by
+      rw [← this]
+    rw [h1]
+    exact mem_colList r c ent j _ (List.getElem_mem _)
 end Piqp.Csc
